@@ -321,7 +321,15 @@ class Build(object):
             procs = []
             for m in re.finditer(re.escape(os.path.basename(path)) + r":(\d+):", txt):
                 k = min(int(m.group(1)), len(lines)) - 1
+                mp = re.match(r"\s*module\s+procedure\s+(\w+)", lines[k], re.I) if k >= 0 else None
+                if mp:
+                    # a line of a generic interface block names its procedure itself
+                    if mp.group(1) not in procs:
+                        procs.append(mp.group(1))
+                    continue
                 while k >= 0:
+                    if re.match(r"\s*end\s+(function|subroutine|interface)\b", lines[k], re.I) and k < min(int(m.group(1)), len(lines)) - 1:
+                        break       # the line is not inside a procedure
                     mm = re.match(r"\s*(?:[\w()=, ]*\s)?(?:function|subroutine)\s+(\w+)", lines[k], re.I)
                     if mm and not lines[k].strip().lower().startswith("end"):
                         if mm.group(1) not in procs:
